@@ -167,7 +167,10 @@ class Monitor:
                         if m["type"] == 2 and pth is not None:
                             s.observers[pth] = tokh
                             s.latest_reg[pth] = tokh
-                        elif pth is not None and s.latest_reg.get(pth) == tokh:
+                        elif pth is not None and s.latest_reg.get(pth) == tokh and \
+                                m["mid"] not in s.notif_mids:
+                            # (a NEW notification; a retransmission of one sent before a
+                            # deregistration proves nothing)
                             # a notification under the current registration shows that the
                             # library still holds the observation (e.g. a Reset that named an
                             # older notification did not cancel it)
@@ -183,7 +186,10 @@ class Monitor:
                 # a notification that was given up takes the observer - and what else is
                 # queued under its token - with it (coap_cancel by token, no further NACK)
                 tk = s.notif_mids.get(ev.get("cbmid"))
-                if tk is not None:
+                if tk is not None and tk in s.observers.values():
+                    # (only while the observation still exists: after an explicit
+                    # deregistration there is no observer to remove, and the other
+                    # notifications already queued run to their own give-up)
                     for q in [q for q in s.queued if s.notif_mids.get(q) == tk]:
                         s.queued.discard(q)
                 drop_obs(s, ev.get("tok"))
